@@ -391,7 +391,7 @@ pub fn describe(q: &Query, t: &Table, layout: &Layout) -> String {
     if let Some(l) = q.limit {
         let lim = l.saturating_add(q.offset) as usize;
         let topn = q.order.len() == 1 && layout.partitions().iter().any(|b| lim < b / 2);
-        s.push_str(if topn { " LIMIT<half" } else { " LIMIT" });
+        s.push_str(if l == 0 { " LIMIT0" } else if topn { " LIMIT<half" } else { " LIMIT" });
     }
     if q.offset > 0 {
         s.push_str(if q.offset as usize > t.nrows() { " OFFSET>n" } else { " OFFSET" });
